@@ -1337,3 +1337,179 @@ Proof.
     cbn in Hin. rewrite !Nat.eqb_refl in Hin. cbn in Hin. rewrite ?Nat.eqb_refl in Hin. cbn in Hin.
     destruct Hin as [<-|[]]. specialize (Hp name_key). cbn in Hp. discriminate Hp.
 Qed.
+
+(* ==================================================================================== *)
+(* 14. the executable oracles decide the stated properties (soundness of the checkers)    *)
+(* ==================================================================================== *)
+Lemma key_mem_In : forall k l, key_mem k l = true <-> In k l.
+Proof.
+  induction l as [|x l IH]; cbn; [split; [discriminate|tauto]|].
+  rewrite orb_true_iff, IH, key_eqb_eq. split; intros [H|H]; auto.
+Qed.
+
+Lemma edge_eqb_eq : forall a b, edge_eqb a b = true <-> a = b.
+Proof.
+  intros [a1 a2] [b1 b2]. unfold edge_eqb. cbn. rewrite andb_true_iff, !key_eqb_eq.
+  split; [intros [-> ->]; reflexivity|intros [= -> ->]; auto].
+Qed.
+
+Lemma edge_mem_In : forall e l, edge_mem e l = true <-> In e l.
+Proof.
+  induction l as [|x l IH]; cbn; [split; [discriminate|tauto]|].
+  rewrite orb_true_iff, IH, edge_eqb_eq. split; intros [H|H]; auto.
+Qed.
+
+Lemma key_nodup_NoDup : forall l, key_nodup l = true -> NoDup l.
+Proof.
+  induction l as [|x l IH]; cbn; [constructor|]. intros H. apply andb_true_iff in H as [H1 H2].
+  constructor; [|auto]. intros Hin. apply key_mem_In in Hin. rewrite Hin in H1. discriminate.
+Qed.
+
+Lemma edge_nodup_NoDup : forall l, edge_nodup l = true -> NoDup l.
+Proof.
+  induction l as [|x l IH]; cbn; [constructor|]. intros H. apply andb_true_iff in H as [H1 H2].
+  constructor; [|auto]. intros Hin. apply edge_mem_In in Hin. rewrite Hin in H1. discriminate.
+Qed.
+
+Lemma nx_wf_b_sound {A} : forall (G : nxg A), nx_wf_b G = true -> nx_wf G.
+Proof.
+  intros G H. unfold nx_wf_b in H. apply andb_true_iff in H as [H H3]. apply andb_true_iff in H as [H1 H2].
+  split; [apply key_nodup_NoDup; exact H1|]. split; [apply edge_nodup_NoDup; exact H2|].
+  intros u v Hin. eapply forallb_forall in H3; [|exact Hin]. cbn in H3.
+  apply andb_true_iff in H3 as [Ha Hb]. split; apply key_mem_In; assumption.
+Qed.
+
+Theorem nx_iso_b_sound {A B} (aeq : A -> B -> bool) : forall phi (G : nxg A) (G' : nxg B),
+  nx_iso_b aeq phi G G' = true -> nx_iso (fun a b => aeq a b = true) (apply_phi phi) G G'.
+Proof.
+  intros phi G G' H. unfold nx_iso_b in H.
+  repeat (apply andb_true_iff in H; destruct H as [H ?]).
+  rename H into H1, H0 into H9, H1 into H8, H2 into H7, H3 into H6, H4 into H5, H5 into H4, H6 into H3, H7 into H2.
+  apply key_nodup_NoDup in H1, H2, H4. apply edge_nodup_NoDup in H3. apply Nat.eqb_eq in H5.
+  split; [|split; [|split; [|split]]].
+  - intros k1 k2 Hk1 Hk2 E. exact (NoDup_map_inj (apply_phi phi) (keys G) k1 k2 H4 Hk1 Hk2 E).
+  - apply NoDup_Permutation_bis; [exact H4| |].
+    + rewrite map_length. unfold keys in *. rewrite <- H5. apply le_n.
+    + intros x Hx. apply in_map_iff in Hx as [k [<- Hk]]. apply key_mem_In.
+      eapply forallb_forall in H6; [exact H6|exact Hk].
+  - intros k a Hin. eapply forallb_forall in H7; [|exact Hin]. cbn [fst snd] in H7.
+    destruct (assoc (apply_phi phi k) (nodes G')) as [b|] eqn:E; [|discriminate].
+    exists b. split; [apply assoc_in; exact E|exact H7].
+  - intros u v Hu Hv. eapply forallb_forall in H8; [|exact Hu]. eapply forallb_forall in H8; [|exact Hv].
+    apply Bool.eqb_prop in H8. rewrite <- !edge_mem_In, H8. tauto.
+  - split; [exact H2|]. split; [exact H3|]. intros u v Hin. eapply forallb_forall in H9; [|exact Hin].
+    cbn in H9. apply andb_true_iff in H9 as [Ha Hb]. split; apply key_mem_In; assumption.
+Qed.
+
+Lemma lookup_in : forall k a v, lookup k a = Some v -> In (k, v) a.
+Proof.
+  induction a as [|[k2 w] a IH]; cbn; [discriminate|]. intros v. destruct (String.eqb k k2) eqn:E.
+  - apply String.eqb_eq in E. subst k2. intros [= ->]. auto.
+  - intros H. right. apply IH. exact H.
+Qed.
+
+Theorem attrs_eqb_sound : forall a b, attrs_eqb a b = true -> attrs_equiv a b.
+Proof.
+  intros a b H k. unfold attrs_eqb in H. apply andb_true_iff in H as [H H3]. apply andb_true_iff in H as [_ H2].
+  destruct (lookup k a) as [v|] eqn:Ea.
+  - apply lookup_in in Ea. eapply forallb_forall in H2; [|exact Ea]. exact H2.
+  - destruct (lookup k b) as [w|] eqn:Eb; [|reflexivity].
+    apply lookup_in in Eb. eapply forallb_forall in H3; [|exact Eb]. cbn [fst snd] in H3.
+    rewrite Ea in H3. discriminate.
+Qed.
+
+Lemma nx_guard_sound : forall G, nx_guard G = true -> nx_name_guard G.
+Proof.
+  intros G H k d Hin. unfold nx_guard in H. eapply forallb_forall in H; [|exact Hin]. cbn in H.
+  apply andb_true_iff in H as [H _]. exact H.
+Qed.
+
+(* what the harness evaluates on the observed restore(adapt(G)) is the conclusion of
+   C18_nx_roundtrip for the witness it was given *)
+Theorem holds_nx_rt_sound : forall G Go phi,
+  nx_wf_b G = true -> nx_guard G = true -> holds_nx_rt G Go phi = true ->
+  nx_iso nx_attrs_equal (apply_phi phi) G Go.
+Proof.
+  intros G Go phi Hw Hg H. unfold holds_nx_rt in H. rewrite Hw, Hg in H. cbn in H.
+  apply nx_iso_b_sound in H. destruct H as [H1 [H2 [H3 [H4 H5]]]].
+  split; [exact H1|]. split; [exact H2|]. split; [|split; [exact H4|exact H5]].
+  intros k a Hin. destruct (H3 k a Hin) as [b [Hb He]]. exists b. split; [exact Hb|].
+  apply attrs_eqb_sound. exact He.
+Qed.
+
+(* and the model passes that check whenever the isomorphism of the theorem is tabulated *)
+Lemma nat_nodup_NoDup : forall l, nat_nodup l = true -> NoDup l.
+Proof.
+  induction l as [|x l IH]; cbn; [constructor|]. intros H. apply andb_true_iff in H as [H1 H2].
+  constructor; [|auto]. intros Hin. apply memb_In in Hin. rewrite Hin in H1. discriminate.
+Qed.
+
+Lemma perm_nat_b_sound : forall l r, perm_nat_b l r = true -> Permutation l r.
+Proof.
+  intros l r H. unfold perm_nat_b in H. apply andb_true_iff in H as [H H3]. apply andb_true_iff in H as [H1 H2].
+  apply Nat.eqb_eq in H1. apply NoDup_Permutation_bis; [apply nat_nodup_NoDup; exact H2|rewrite H1; apply le_n|].
+  intros x Hx. eapply forallb_forall in H3; [|exact Hx]. apply memb_In. exact H3.
+Qed.
+
+(* the property as the text states it: structure (parents as a set), names, parameters *)
+Definition opt_iso_weak (f : nat -> nat) (g g' : optg) : Prop :=
+  (forall u1 u2, In u1 (uids g) -> In u2 (uids g) -> f u1 = f u2 -> u1 = u2) /\
+  Permutation (map f (uids g)) (uids g') /\
+  (forall nd, In nd g -> exists nd', In nd' g' /\ ouid nd' = f (ouid nd) /\
+                                     Permutation (map f (opar nd)) (opar nd') /\ same_name_params nd nd').
+
+Lemma opt_iso_weaken : forall f g g', opt_iso same_name_params f g g' -> opt_iso_weak f g g'.
+Proof.
+  intros f g g' [H1 [H2 [H3 _]]]. split; [exact H1|]. split; [exact H2|].
+  intros nd Hin. destruct (H3 nd Hin) as [nd' [Ha [Hb [Hc Hd]]]]. exists nd'. rewrite Hc. auto.
+Qed.
+
+Theorem opt_iso_b_sound : forall psi g g',
+  opt_iso_b psi g g' = true -> opt_iso_weak (fun u => assoc_nat u psi) g g'.
+Proof.
+  intros psi g g' H. unfold opt_iso_b in H.
+  apply andb_true_iff in H as [H H4]. apply andb_true_iff in H as [H H3]. apply andb_true_iff in H as [H1 H2].
+  apply nat_nodup_NoDup in H1, H2. apply Nat.eqb_eq in H3.
+  assert (Hnode : forall nd, In nd g -> exists nd', In nd' g' /\ ouid nd' = assoc_nat (ouid nd) psi /\
+             Permutation (map (fun u => assoc_nat u psi) (opar nd)) (opar nd') /\ same_name_params nd nd').
+  { intros nd Hin. eapply forallb_forall in H4; [|exact Hin]. cbn beta in H4.
+    destruct (find_node g' (assoc_nat (ouid nd) psi)) as [nd'|] eqn:E; [|discriminate].
+    apply find_node_some in E as [E1 E2].
+    apply andb_true_iff in H4 as [H4 Hc]. apply andb_true_iff in H4 as [Ha Hb].
+    exists nd'. split; [exact E1|]. split; [exact E2|]. split; [apply perm_nat_b_sound; exact Hc|].
+    split; [symmetry; apply String.eqb_eq; exact Ha|apply attrs_eqb_sound; exact Hb]. }
+  split; [|split; [|exact Hnode]].
+  - intros u1 u2 Hu1 Hu2 E. exact (NoDup_map_inj (fun u => assoc_nat u psi) (uids g) u1 u2 H2 Hu1 Hu2 E).
+  - apply NoDup_Permutation_bis; [exact H2| |].
+    + rewrite map_length. unfold uids. rewrite !map_length, H3. apply le_n.
+    + intros x Hx. apply in_map_iff in Hx as [u [<- Hu]]. apply in_map_iff in Hu as [nd [<- Hin]].
+      destruct (Hnode nd Hin) as [nd' [Ha [Hb _]]]. rewrite <- Hb. apply in_map. exact Ha.
+Qed.
+
+Theorem holds_opt_rt_sound : forall g go psi,
+  opt_guard g = true -> holds_opt_rt g go psi = true -> opt_iso_weak (fun u => assoc_nat u psi) g go.
+Proof.
+  intros g go psi Hg H. unfold holds_opt_rt in H. rewrite Hg in H. apply opt_iso_b_sound. exact H.
+Qed.
+
+Lemma opt_wf_b_sound : forall g, opt_wf_b g = true -> opt_wf g.
+Proof.
+  intros g H. unfold opt_wf_b in H. apply andb_true_iff in H as [H1 H2]. split; [apply nat_nodup_NoDup; exact H1|].
+  intros nd Hin. eapply forallb_forall in H2; [|exact Hin]. apply andb_true_iff in H2 as [Ha Hb].
+  split; [apply nat_nodup_NoDup; exact Ha|]. intros p Hp. eapply forallb_forall in Hb; [|exact Hp].
+  apply memb_In. exact Hb.
+Qed.
+
+Lemma opt_guard_sound : forall g, opt_guard g = true -> opt_wf g /\ opt_params_guard g.
+Proof.
+  intros g H. unfold opt_guard in H. apply andb_true_iff in H as [H1 H2]. split; [apply opt_wf_b_sound; exact H1|].
+  intros nd Hin. eapply forallb_forall in H2; [|exact Hin]. unfold params_ok in H2.
+  apply andb_true_iff in H2 as [H2 _]. destruct (lookup name_key (node_params nd)); [discriminate|reflexivity].
+Qed.
+
+(* freshness oracles *)
+Lemma all_fresh_sound : forall n ids, all_fresh n ids = true <-> fresh n ids.
+Proof.
+  intros n ids. unfold all_fresh, fresh. rewrite forallb_forall, Forall_forall.
+  split; intros H i Hi; specialize (H i Hi); [apply Nat.leb_le|apply Nat.leb_le]; exact H.
+Qed.
